@@ -11,11 +11,18 @@
 EXTENDS O2OImpls, TLC
 
 TypeLevelOk   == {"ghosts", "where_clause", "child_parents"}
+\* child_parents: #[child_parents(p: P)]; child_parents_q: #[child_parents(q: Q)] (an entry list that does not name `p`);
+\* child_parents_pq: #[child_parents(p: P, p.q: Q)].  All three are the instruction child_parents (TLabel); they differ in Entries.
+TLabel(n) == IF n \in {"child_parents_q", "child_parents_pq"} THEN "child_parents" ELSE n
+Entries(n) == CASE n = "child_parents" -> {"p"} [] n = "child_parents_q" -> {"q"} [] n = "child_parents_pq" -> {"p", "p.q"} [] OTHER -> {}
+\* child: #[child(p)]; child_pq: #[child(p.q)] -- every prefix of the path needs an entry
+IsChild(n) == n \in {"child", "child_pq"}
+Prefixes(n) == IF n = "child_pq" THEN {"p", "p.q"} ELSE {"p"}
 \* names that are member instructions and therefore misplaced on a type (README: "member level instructions")
 TypeMisplaced == {"parent", "literal", "pattern", "type_hint"}
 \* near-misses the documentation anticipates ("Perhaps you meant ...")
 TypeMisnamed  == {"children", "ghost", "child"}
-MemberOk      == {"map", "map_bare", "map_action", "ghost_nd", "ghost_d", "ghost_owned_d", "ghost_ref_d", "child", "parent0", "parentp", "parentp_idx", "parentp_untyped", "parentp_untyped2", "parentp_untyped_deep",
+MemberOk      == {"map", "map_bare", "map_action", "ghost_nd", "ghost_d", "ghost_owned_d", "ghost_ref_d", "child", "child_pq", "parent0", "parentp", "parentp_idx", "parentp_untyped", "parentp_untyped2", "parentp_untyped_deep",
                   "literal", "pattern", "type_hint", "type_hint_s"}
 \* type_hint: #[type_hint(as ())], type_hint_s: #[type_hint(as {})] (the counterpart variant has named fields)
 \* map: #[map(name)] -- always with the counterpart member's name; map_bare: #[map] (neither name nor expression); map_action: #[map(~.clone())]
@@ -44,8 +51,8 @@ AllMemberAttrs(in) == UNION {ToSetQ(in.ms[i]) : i \in DOMAIN in.ms}
 Count(s, P(_)) == Cardinality({i \in DOMAIN s : P(s[i])})
 
 \* instructions that are recognised at the level where they stand (only these take part in the semantic rules)
-UnsupportedOn(dt) == IF dt = "struct" THEN {"literal", "pattern", "type_hint", "type_hint_s"} ELSE {"parent0", "parentp", "parentp_idx", "parentp_untyped", "parentp_untyped2", "parentp_untyped_deep", "child"}
-RecognisedT(in) == {x \in ToSetQ(in.tattrs) : x.n \in TypeLevelOk}
+UnsupportedOn(dt) == IF dt = "struct" THEN {"literal", "pattern", "type_hint", "type_hint_s"} ELSE {"parent0", "parentp", "parentp_idx", "parentp_untyped", "parentp_untyped2", "parentp_untyped_deep", "child", "child_pq"}
+RecognisedT(in) == {x \in ToSetQ(in.tattrs) : TLabel(x.n) \in TypeLevelOk}
 RecognisedM(in, i) == {x \in ToSetQ(in.ms[i]) : x.n \in MemberOk \ UnsupportedOn(in.dt)}
 
 \* class 4: dedicated to a type no trait instruction mentions
@@ -53,9 +60,9 @@ UnknownCp(in) == {[c |-> "unknown_cp", a |-> x.cp] :
                     x \in {y \in (RecognisedT(in) \cup UNION {RecognisedM(in, i) : i \in DOMAIN in.ms} \cup VFAttrs(in)) : y.cp # "-" /\ y.cp \notin CpsOf(in)}}
 
 \* class 5: at most one default, at most one dedicated per type -- type level
-SecondDefaultT(in) == {[c |-> "second_default", a |-> n] : n \in {m \in TypeLevelOk : Count(in.tattrs, LAMBDA x : x.n = m /\ x.cp = "-") > 1}}
+SecondDefaultT(in) == {[c |-> "second_default", a |-> n] : n \in {m \in TypeLevelOk : Count(in.tattrs, LAMBDA x : TLabel(x.n) = m /\ x.cp = "-") > 1}}
 SecondDedicatedT(in) == {[c |-> "second_dedicated", a |-> p[1] \o ":" \o p[2]] :
-                          p \in {q \in TypeLevelOk \X {"A", "B", "Z"} : Count(in.tattrs, LAMBDA x : x.n = q[1] /\ x.cp = q[2]) > 1}}
+                          p \in {q \in TypeLevelOk \X {"A", "B", "Z"} : Count(in.tattrs, LAMBDA x : TLabel(x.n) = q[1] /\ x.cp = q[2]) > 1}}
 \* class 5, member level: parent on struct fields; literal / pattern / type_hint on enum variants
 InstrLabel(n) == IF IsParentItem(n) THEN "parent" ELSE IF n = "type_hint_s" THEN "type_hint" ELSE n
 PerMemberUnique(in) == IF in.dt = "struct" THEN {"parent"} ELSE {"literal", "pattern", "type_hint"}
@@ -85,12 +92,26 @@ GhostNoDefault(in) ==
               HasFrom(in, q[2]) /\ \E x \in RecognisedM(in, q[1]) : x.n = "ghost_nd" /\ x.cp \in {"-", q[2]}}}
 
 \* class 8: child without child_parents (struct fields, for every counterpart that has an Into conversion)
-ChildParentsFor(in, cp) == \E x \in RecognisedT(in) : x.n = "child_parents" /\ x.cp \in {"-", cp}
+ChildParentsFor(in, cp) == \E x \in RecognisedT(in) : TLabel(x.n) = "child_parents" /\ x.cp \in {"-", cp}
 ChildNoParents(in) ==
   IF in.dt # "struct" THEN {} ELSE
   {[c |-> "child_no_parents", a |-> cp] :
      cp \in {q \in CpsOf(in) : HasInto(in, q) /\ ~ChildParentsFor(in, q)
-                               /\ \E i \in DOMAIN in.ms : \E x \in RecognisedM(in, i) : x.n = "child" /\ x.cp \in {"-", q}}}
+                               /\ \E i \in DOMAIN in.ms : \E x \in RecognisedM(in, i) : IsChild(x.n) /\ x.cp \in {"-", q}}}
+\* class 8b: the child_parents instruction that applies to a counterpart (the first dedicated to it, else the first default one -- never both)
+\* must have an entry for every prefix of every child path that concerns the counterpart
+AppChildParents(in, cp) ==
+  LET ok(j) == TLabel(in.tattrs[j].n) = "child_parents"
+      d == First(LAMBDA j : ok(j) /\ in.tattrs[j].cp = cp, Len(in.tattrs))
+      f == First(LAMBDA j : ok(j) /\ in.tattrs[j].cp = "-", Len(in.tattrs)) IN
+  IF d # 0 THEN in.tattrs[d].n ELSE IF f # 0 THEN in.tattrs[f].n ELSE "-"
+ChildMissingParent(in) ==
+  IF in.dt # "struct" THEN {} ELSE
+  {[c |-> "child_missing_parent", a |-> p[2] \o ":" \o p[1]] :
+     p \in {q \in CpsOf(in) \X {"p", "p.q"} :
+              /\ HasInto(in, q[1]) /\ ChildParentsFor(in, q[1])
+              /\ q[2] \notin Entries(AppChildParents(in, q[1]))
+              /\ \E i \in DOMAIN in.ms : \E x \in RecognisedM(in, i) : IsChild(x.n) /\ x.cp \in {"-", q[1]} /\ q[2] \in Prefixes(x.n)}}
 
 \* class 9: tuple struct mapped to a named counterpart (`as {}`) needs a member name on every mapped member, for every conversion.
 \* A member is excused when it is a ghost or a parent for that counterpart.
@@ -159,6 +180,6 @@ Unsupported(in) ==
 Bare(S) == {[c |-> x, a |-> "-"] : x \in S}
 Faults(in) == Bare(TraitFaults(in.traits)) \cup UnknownCp(in) \cup SecondDefaultT(in) \cup SecondDedicatedT(in)
               \cup SecondDefaultM(in) \cup SecondDedicatedM(in) \cup Misplaced(in) \cup Misnamed(in) \cup UnknownInstr(in)
-              \cup GhostNoDefault(in) \cup ChildNoParents(in) \cup TupleNamed(in) \cup VariantTupleNamed(in) \cup ParentFieldUnnamed(in) \cup UntypedParent(in) \cup Unsupported(in)
+              \cup GhostNoDefault(in) \cup ChildNoParents(in) \cup ChildMissingParent(in) \cup TupleNamed(in) \cup VariantTupleNamed(in) \cup ParentFieldUnnamed(in) \cup UntypedParent(in) \cup Unsupported(in)
 FaultKeys(in) == {x.c \o "/" \o x.a : x \in Faults(in)}
 =============================================================================
